@@ -11,6 +11,8 @@ CONSTANTS
   WithProxyDel = FALSE
   CfiLayouts = {"none"}
   Isa = "arm64"
+  WithScopes = TRUE
+  InsFns = {"none"}
   Emit = TRUE
 INVARIANT Inv
 CHECK_DEADLOCK FALSE
